@@ -78,12 +78,13 @@ class Harness:
         self.claims = ""
         self.assumes = []
         self.expect = "pass"      # pass | witness (a reachability twin that must FAIL)
+        self.cbmc_args = []       # extra CBMC options (`// @cbmc --max-field-sensitivity-array-size 512`)
         self.functions = []
 
     def to_json(self):
         return {"name": self.name, "file": os.path.relpath(self.file, VERIF), "tier": self.tier,
                 "unwind": self.unwind, "unwindset": self.unwindset, "bounds": self.bounds,
-                "claims": self.claims, "assumptions": self.assumes, "expect": self.expect}
+                "claims": self.claims, "assumptions": self.assumes, "expect": self.expect, "cbmc_args": self.cbmc_args}
 
 
 def parse_harnesses():
@@ -122,6 +123,7 @@ def parse_harnesses():
                 h.claims = pending.get("claims", "")
                 h.assumes = pending.get("assume", [])
                 h.expect = pending.get("expect", "pass")
+                h.cbmc_args = pending.get("cbmc", "").split()
                 if "unwindset" in pending:
                     for item in pending["unwindset"].split(","):
                         item = item.strip()
@@ -299,6 +301,7 @@ def run_cbmc(h, info, workdir):
         cmd += ["--unwindset", ",".join(pairs)]
     res["unwind"] = unwind
     res["unwindset"] = uinfo
+    cmd += h.cbmc_args
     cmd += [goto, "--json-ui"]
     jpath = os.path.join(workdir, h.name + ".cbmc.json")
     with open(jpath, "w") as jf:
@@ -525,6 +528,7 @@ def _cbmc_counterexamples(h, info, workdir, wanted, sliced):
     pairs = list(pairs or []) + recursion_unwindset(h, workdir)
     if pairs:
         cmd += ["--unwindset", ",".join(pairs)]
+    cmd += h.cbmc_args
     # one failing check is enough for a replay; asking for it alone keeps the trace small
     first = sorted({c["id"] for c in wanted})[0]
     cmd += ["--property", first, "--stop-on-fail"]
